@@ -2473,6 +2473,14 @@ rule_enumeration_item
               rule_idx,
               NULL,
               NULL);
+
+          // A disabled rule is undefined, and an undefined value on the stack
+          // is what marks the end of the set: make it false.
+          if (result == ERROR_SUCCESS)
+            result = yr_parser_emit_push_const(yyscanner, 0);
+
+          if (result == ERROR_SUCCESS)
+            result = yr_parser_emit(yyscanner, OP_OR, NULL);
         }
         else
         {
